@@ -56,6 +56,17 @@ def main() -> int:
     bad = 0
     with ThreadPoolExecutor(max_workers=8) as ex:
         for seed, prop, rc, first in ex.map(one, seeds):
+            with open(os.path.join(VERIF, "seeded", seed, "meta.json"),
+                      encoding="utf-8") as fh:
+                out_of_reach = json.load(fh).get(
+                    "static_verdict") == "out-of-reach"
+            if out_of_reach:
+                # documented as not decidable statically: the check must
+                # stay silent (no alarm for a wrong reason either)
+                print(f"{'out-of-reach (documented)' if rc == 0 else 'UNEXPECTED'}"
+                      f" {seed} [{prop}] rc={rc} {first}")
+                bad += rc != 0
+                continue
             ok = rc == 1
             bad += not ok
             print(f"{'caught' if ok else 'MISSED'} {seed} [{prop}] rc={rc} "
